@@ -510,6 +510,14 @@ def _is_lin(mod, fn, defs, expr, var, stmt, what, memos=None, depth=0):
     memo = expr.value.id
     if memo in memos and defs.at(memo, stmt) == frozenset(["param"]):
       return True
+  if isinstance(expr, ast.Call) and isinstance(expr.func, ast.Attribute) and \
+      expr.func.attr == "get" and isinstance(expr.func.value, ast.Name) and \
+      len(expr.args) == 1 and not expr.keywords and \
+      isinstance(expr.args[0], ast.Name) and expr.args[0].id == var:
+    # `memo.get(<cls>)`: the same look-up (None when absent)
+    memo = expr.func.value.id
+    if memo in memos and defs.at(memo, stmt) == frozenset(["param"]):
+      return True
   if isinstance(expr, ast.Name) and expr.id != var:
     ds = defs.at(expr.id, stmt)
     if ds and all(isinstance(d, ast.Assign) and len(d.targets) == 1
@@ -1327,7 +1335,7 @@ def _bases_root(defs, name, stmt, what, depth=0):
   return d
 
 
-@rule("R10.5", "C10", floor=2)
+@rule("R10.5", "C10", floor=1)
 def r10_5(ctx):
   """A repeated direct base is rejected with MROError before the merge."""
   mod = get_module(ctx, MIXIN)
